@@ -225,6 +225,11 @@ def run(ctx):
     for c in walk_no_nested(keyf.node):
         if isinstance(c, ast.Call) and isinstance(c.func, ast.Attribute) and c.func.attr == "append" and c.args:
             arg = c.args[0]
+            if isinstance(arg, ast.Name):      # the key computed into a local first
+                from sa.dataflow import ReachingDefs as _RD12
+                ds = _RD12(keyf).at(c, arg.id) or []
+                if len(ds) == 1 and ds[0].kind == "assign" and ds[0].value is not None:
+                    arg = ds[0].value
             inner = arg.args[0] if isinstance(arg, ast.Call) and isinstance(arg.func, ast.Name) and arg.func.id in ("str", "int", "float") and arg.args else arg
             if isinstance(inner, ast.Call) and call_name(inner) == "get" and len(inner.args) == 2 and isinstance(inner.args[1], ast.Constant) \
                     and isinstance(inner.args[1].value, str):
